@@ -486,6 +486,7 @@ type Contract struct {
 	File        string
 	Props       []string
 	Requires    []*Clause
+	PanicsUnless []*Clause // the function does not return normally unless these hold at entry
 	Ensures     []*Clause
 	Modifies    []ModTarget
 	HasModifies bool
@@ -704,6 +705,15 @@ func (db *SpecDB) loadSpecFile(path, pkgRel string) error {
 			} else {
 				cur.Ensures = append(cur.Ensures, c)
 			}
+		case "panics_unless":
+			if cur == nil {
+				return fail(i, fmt.Errorf("panics_unless outside func"))
+			}
+			c, err := parseClause(rest, cur.Props)
+			if err != nil {
+				return fail(i, err)
+			}
+			cur.PanicsUnless = append(cur.PanicsUnless, c)
 		case "modifies":
 			if cur == nil {
 				return fail(i, fmt.Errorf("modifies outside func"))
